@@ -705,3 +705,12 @@ package sse
 //@   invariant 1 typed_done: all(k, "int", has(typedcbs(c, ev), k) ==> old(ncalls()) <= callatkey(0, k) && callatkey(0, k) < ncalls() && typedcall(c, ev, callatkey(0, k)) && ckeyint(callatkey(0, k)) == k)
 //@   invariant 1 visited_were_called: all(k, "int", visited(1, k) ==> has(c.callbacksAll, k) && old(ncalls()) <= callatkey(1, k) && callatkey(1, k) < ncalls() && allcall(c, callatkey(1, k)) && ckeyint(callatkey(1, k)) == k)
 //@   invariant 1 calls_are_visited: forall(x, old(ncalls()), ncalls(), iscall(x, "cb") && carg(x, "cb", 0) == ev && (typedcall(c, ev, x) || (allcall(c, x) && visited(1, ckeyint(x)))))
+
+//@ func Client.NewConnection
+//@   requires c != nil && r != nil
+//@   assume DefaultClient.Backoff.InitialInterval == 500000000 && DefaultClient.Backoff.Multiplier == 1.5 && DefaultClient.Backoff.Jitter == 0.5 && DefaultClient != c
+//@   modifies c.HTTPClient, c.Backoff.InitialInterval, c.Backoff.Multiplier, c.Backoff.Jitter, c.ResponseValidator
+//@   ensures registry_starts_empty_and_well_formed: result != nil && fresh(result) && connok(result) && result.callbackID == 0 &&
+//@       all(e, "string", !has(result.callbacks, e)) && all(k, "int", !has(result.callbacksAll, k))
+//@   ensures first_attempt_state: !result.isRetry && result.lastEventID == "" && result.request != nil
+//@   ensures backoff_normalised: result.client.Backoff.InitialInterval > 0 && result.client.Backoff.Multiplier >= 1 && (result.client.Backoff.Jitter == -1 || (0 < result.client.Backoff.Jitter && result.client.Backoff.Jitter < 1))
